@@ -252,8 +252,12 @@ func (b *builder) msgTx(t aTx, coinbase bool, height int32) *wire.MsgTx {
 				Sequence: wire.MaxTxInSequenceNum})
 		}
 	}
-	for _, o := range t.outs {
-		m.AddTxOut(&wire.TxOut{Value: o.amt, PkScript: o.script})
+	for i, o := range t.outs {
+		sc := o.script
+		if len(sc) == 0 && (t.id+i)%2 == 1 {
+			sc = []byte{} // empty but non-nil, every other time
+		}
+		m.AddTxOut(&wire.TxOut{Value: o.amt, PkScript: sc})
 	}
 	return m
 }
